@@ -183,7 +183,14 @@ TAlpha == {"S", "So", "SA", "A", "Ax", "PA", "PAx", "R", "Rx", "Fx", "FAx", "BIG
 TSeqs == [k : {"tseq"}, ls : SeqsOver(TAlpha, SeqLen)]
 Seqs == FSeqs \cup TSeqs
 
-Cases == Frames \cup Seqs
+(* Queue pressure: state accumulated by MANY well-formed frames in one bounded
+   queue of the stack (UDP receive buffer of a socket that is not read / read
+   late / many small / fragmented datagrams, SYN-RCVD backlog, TCP receive
+   buffer with unread data, reassembly memory, neighbour cache), after which
+   the application uses the queue and the probes run. *)
+PressUdp == {"udp-unread", "udp-late", "udp-small", "udp-frag"}
+Pressure == [k : {"press"}, q : PressUdp \cup {"syn-backlog", "tcp-rcvbuf", "frag-mem", "neigh"}]
+Cases == Frames \cup Seqs \cup Pressure
 
 -----------------------------------------------------------------------------
 (* Numbers for the concretiser *)
@@ -227,8 +234,8 @@ DeliverTo(s)   == [kind |-> "DeliverTo", what |-> s]
 Reply(kind)    == [kind |-> "Reply", what |-> kind]
 Unspecified    == [kind |-> "Unspecified", what |-> "-"]
 Layers == {"nic", "ip", "frag", "icmp", "udp", "tcp", "arp"}
-ObsClasses == {"echo4", "echo6", "udp", "rst", "synack", "tcp", "arp", "na", "ns", "icmperr", "other"}
-OutcomeSet == {DropAt(x) : x \in Layers} \cup {DeliverTo("udp")} \cup {Reply(x) : x \in {"echo4", "echo6", "rst", "arp", "na"}}
+ObsClasses == {"echo4", "echo6", "udp", "rst", "synack", "tcp", "arp", "na", "ns", "icmperr", "other", "udpq", "tcpq"}
+OutcomeSet == {DropAt(x) : x \in Layers} \cup {DeliverTo("udp"), DeliverTo("udpq"), DeliverTo("tcpq")} \cup {Reply(x) : x \in {"echo4", "echo6", "rst", "arp", "na"}}
               \cup {Unspecified}
 
 (* transport decision; `avail` = L4 bytes the IP layer hands up, `full` = bytes built *)
@@ -307,13 +314,17 @@ OutFSeq(c) ==
          ELSE Unspecified
 
 Outcome(c) == CASE c.k = "ip4" -> Out4(c) [] c.k = "ip6" -> Out6(c) [] c.k = "arp" -> OutArp(c)
-                [] c.k = "fseq" -> OutFSeq(c) [] OTHER -> Unspecified
+                [] c.k = "fseq" -> OutFSeq(c)
+                \* pressure: the queued data (what fitted) is still readable by the application and the queue works again
+                [] c.k = "press" -> (IF c.q \in PressUdp THEN DeliverTo("udpq") ELSE IF c.q = "tcp-rcvbuf" THEN DeliverTo("tcpq") ELSE Unspecified)
+                [] OTHER -> Unspecified
 
 MustObs(o) == IF o.kind \in {"DeliverTo", "Reply"} THEN {o.what} ELSE {}
 MayObs(o)  == CASE o.kind = "Unspecified" -> ObsClasses
                 [] o.kind = "DropAt" -> {"icmperr"}
                 [] OTHER -> {o.what, "icmperr"}
-ObsOK(c, obs) == MustObs(Outcome(c)) \subseteq obs /\ obs \subseteq MayObs(Outcome(c))
+MayObsC(c) == IF c.k = "press" THEN ObsClasses ELSE MayObs(Outcome(c))     \* a burst has many side observations
+ObsOK(c, obs) == MustObs(Outcome(c)) \subseteq obs /\ obs \subseteq MayObsC(c)
 
 -----------------------------------------------------------------------------
 (* Independent well-formedness predicates (RFC 791/768/793/826/2460), used
@@ -344,7 +355,7 @@ Spec == Init /\ [][Next]_vars
 Serving == serving.echo /\ serving.tcp /\ serving.udp
 OutcomeTotal == last # NoCase => Outcome(last) \in OutcomeSet
 PositiveOnlyIfWellFormed == (last # NoCase /\ Outcome(last).kind \in {"DeliverTo", "Reply"}) => WellFormed(last)
-MustWithinMay == last # NoCase => MustObs(Outcome(last)) \subseteq MayObs(Outcome(last))
+MustWithinMay == last # NoCase => MustObs(Outcome(last)) \subseteq MayObsC(last)
 (* vacuity guards: every outcome kind is used by the lattice in scope *)
 KindsUsed == {Outcome(c).kind : c \in Cases}
 
